@@ -2344,14 +2344,24 @@ class Judge(object):
         if not raw['sections']:
             self.cnt.hit('section:none')
 
-    def run_cases(self, cases, workers=None):
+    def prepare_async(self, cases, workers=4):
+        """compile `cases` in the background (the limit-size documents take tens of seconds each); -> future of recs"""
+        ex = concurrent.futures.ThreadPoolExecutor(max_workers=workers)
+        futs = [ex.submit(self.prepare, c) for c in cases]
+        ex.shutdown(wait=False)
+        return futs
+
+    def run_cases(self, cases, workers=None, prepared=None):
         """compile (process pool of compilers), then decode / validate chunk-wise with several model-driver and
         C-reader processes at a time; the judging itself (oracle, comparison) runs in this thread, in case order"""
         import shutil
         if workers is None:
             workers = max(4, min(16, os.cpu_count() or 8))
-        with concurrent.futures.ThreadPoolExecutor(max_workers=workers) as ex:
-            recs = list(ex.map(self.prepare, cases))
+        if prepared is not None:
+            recs = [f.result() for f in prepared]
+        else:
+            with concurrent.futures.ThreadPoolExecutor(max_workers=workers) as ex:
+                recs = list(ex.map(self.prepare, cases))
         ready = [r for r in recs if self.judge_compile(r)]
         chunks = [ready[i:i + 40] for i in range(0, len(ready), 40)]
 
@@ -2469,6 +2479,37 @@ def dirindex_correspondence(ctx, judge, cnt):
                                   'section at [%d, %d), the model of add_directory_index_section says %r' % (ns, n, off, size, o))
 
 
+def start_sanitizer_runs(pipe, san_future, san_cases):
+    """the ASan/UBSan build of g-ir-compiler on a sample of the documents, in the background; -> future of stderr texts"""
+    import shutil
+    import cbuild
+
+    def san_one(sanc, c):
+        d = pipe.newdir()
+        try:
+            for (dns, dver), dtext in zip(c.get('dep_ids', []), c.get('deps', [])):
+                with open(os.path.join(d, '%s-%s.gir' % (dns, dver)), 'w', encoding='utf-8') as f:
+                    f.write(dtext)
+            gir = os.path.join(d, '%s-%s.gir' % (c['ns'], c['version']))
+            with open(gir, 'w', encoding='utf-8') as f:
+                f.write(c['gir'])
+            rc, so, se = cbuild.run_compiler(sanc, gir, os.path.join(d, 'o.typelib'), includedirs=[d],
+                                             shared_library=c.get('shlib_option'))
+            return se
+        finally:
+            shutil.rmtree(d, ignore_errors=True)
+
+    def all_runs():
+        sanc = san_future.result().compiler()          # re-raises a HarnessError of the build
+        with concurrent.futures.ThreadPoolExecutor(max_workers=4) as ex:
+            return list(ex.map(lambda c: san_one(sanc, c), san_cases))
+
+    ex = concurrent.futures.ThreadPoolExecutor(max_workers=1)
+    fut = ex.submit(all_runs)
+    ex.shutdown(wait=False)
+    return fut
+
+
 def run(ctx):
     cnt = Counter()
     register_pending(ctx)
@@ -2490,9 +2531,14 @@ def run(ctx):
     deps = [make_dep(rng, i) for i in range(ctx.n(3, 12))]
     dep_cases = [{'ns': d['ns'], 'version': d['version'], 'gir': d['gir'], 'deps': [], 'dep_ids': [], 'shlib_option': None,
                   'cover': d['cover'], 'origin': 'generated'} for d in deps]
-    n_cases = ctx.n(150, 2500)
+    n_cases = ctx.n(150, 1800)
     cases = [make_case(rng, i, deps) for i in range(n_cases)]
+    san_runs, san_cases = None, []
+    if san_future is not None:
+        san_cases = (corpus + dep_cases + cases)[:300]
+        san_runs = start_sanitizer_runs(pipe, san_future, san_cases)
     lims = limit_cases(rng, ctx.tier)
+    lim_futures = judge.prepare_async(lims)          # compiled while the ordinary documents are judged
     gen_cover = {}
     for c in dep_cases + cases:
         for k, v in c.get('cover', {}).items():
@@ -2502,7 +2548,7 @@ def run(ctx):
     for i in range(0, len(all_cases), 400):
         recs += judge.run_cases(all_cases[i:i + 400])
         ctx.log('%d / %d GIRs judged' % (min(i + 400, len(all_cases)), len(all_cases)))
-    lim_recs = judge.run_cases(lims, workers=4)
+    lim_recs = judge.run_cases(lims, workers=4, prepared=lim_futures)
     ctx.log('limit cases judged')
     codec_correspondence(ctx, pipe, cnt)
     sizes_correspondence(ctx, judge, cnt)
@@ -2541,39 +2587,16 @@ def run(ctx):
             v['replay']['shrunk_gir'] = small['gir']
             cnt.hit('search:shrunk')
 
-    # ASan/UBSan build of the real C code on a sample (thorough)
-    if ctx.tier == 'thorough':
+    # ASan/UBSan build of the real C code on a sample (thorough): results of the background runs
+    if san_runs is not None:
         try:
-            import cbuild
-            san = san_future.result()
-            sanc = san.compiler()
-            import shutil
-
-            def san_one(c):
-                d = pipe.newdir()
-                try:
-                    for (dns, dver), dtext in zip(c.get('dep_ids', []), c.get('deps', [])):
-                        with open(os.path.join(d, '%s-%s.gir' % (dns, dver)), 'w', encoding='utf-8') as f:
-                            f.write(dtext)
-                    gir = os.path.join(d, '%s-%s.gir' % (c['ns'], c['version']))
-                    with open(gir, 'w', encoding='utf-8') as f:
-                        f.write(c['gir'])
-                    rc, so, se = cbuild.run_compiler(sanc, gir, os.path.join(d, 'o.typelib'), includedirs=[d],
-                                                     shared_library=c.get('shlib_option'))
-                    return se
-                finally:
-                    shutil.rmtree(d, ignore_errors=True)
-
-            san_cases = (corpus + dep_cases + cases)[:300]
-            with concurrent.futures.ThreadPoolExecutor(max_workers=max(4, min(16, os.cpu_count() or 8))) as ex:
-                san_out = list(ex.map(san_one, san_cases))
-            nsan = len(san_out)
+            san_out = san_runs.result()
             for c, se in zip(san_cases, san_out):
                 if 'runtime error' in se or 'AddressSanitizer' in se:
                     cnt.hit('fail:sanitizer')
                     ctx.report_failure(judge.api_key(c, 'sanitizer'),
                                        'ASan/UBSan build of g-ir-compiler reports: ' + se[-500:], replay_obj(c))
-            cnt.hit('sanitizer:runs', nsan)
+            cnt.hit('sanitizer:runs', len(san_out))
         except HarnessError as e:
             ctx.notes.append('sanitizer build not available: %s' % str(e)[-200:])
 
